@@ -1079,6 +1079,17 @@ pub fn gen_policy(seed: u64, idx: u64, max_leaves: usize) -> (String, P) {
             }
         }
         9 => ("random-unsafe".into(), g.tree(nl, false)),
+        10 => {
+            // a key guarding a choice of two sigless conditions: compilable only if the choice can
+            // be made non-malleably (two hash locks cannot)
+            let a = if g.rng.chance(1, 2) { g.hash() } else { g.older() };
+            let b = if g.rng.chance(2, 3) { g.hash() } else { g.after() };
+            let (wa, wb) = (g.odds(), g.odds());
+            let o = P::Or(vec![(wa, a), (wb, b)]);
+            let k = g.key();
+            let v = if g.rng.chance(1, 2) { vec![k, o] } else { vec![o, k] };
+            ("key-and-sigless-choice".into(), P::And(v))
+        }
         _ => ("random".into(), g.tree(nl, true)),
     }
 }
